@@ -28,7 +28,7 @@ CHECKS = {
    technique="deterministic simulation with disk/stdin fault injection over seeded worlds and schedules; invariants: no panic/deadlock/hang, exit status rule"),
  "C15": dict(
    level=("exploration", "Seeded sweep of the process environment the simulator owns - virtual working directory, path spelling, repository layout (nested, sibling, second repository in the same invocation), argument mode, failing getwd - x generated paths/ignore configurations and -ignore flags, deciding the output against a small reference model (unfiltered list minus applicable matches, order kept; exit status rule). The property has no schedule of its own; what tests pin to one point (one cwd, one spelling) is swept here, with a race lane for the filter code shared by file goroutines.", "DESIGN.md section 4 (C15)"),
-   note="Trusts: virtual disk / virtual cwd facade (os, path/filepath), doublestar and Go regexp as used by the reference model, the unfiltered run as the source of U. Symbolic links are not modelled by the virtual disk.",
+   note="Trusts: virtual disk / virtual cwd facade (os, path/filepath), doublestar and Go regexp as used by the reference model, the unfiltered run as the source of U. Symbolic links (to files, to directories, loops) are modelled by the virtual disk; hard links and bind mounts are not.",
    technique="deterministic simulation of the process environment (virtual disk + cwd, getwd fault) with a reference filter model; seeded search with minimised replay; race-detector lane"),
  "C20": dict(
    level=("exploration", "The real process.go protocol (semaphore, WaitGroup, errgroup, callbacks, mutex) runs against simulated shellcheck/pyflakes whose latency, completion order and failures are seeded adversarial choices; decided: expected invocation multiset with sanitised stdin (reference model from the YAML via yaml.v3), one diagnostic per printed issue at the run: key with valid offsets, at every kernel step running processes <= NumCPU, at return nothing alive or uncollected (also on the error path), no deadlock, injected tool failure => fatal error. Interleavings and fault patterns are sampled: exploration.", "DESIGN.md section 4 (C20)"),
